@@ -27,6 +27,13 @@ func (self ValueRange) IsEqual(other Value) (bool, *Interrupt) {
 
 func (self ValueRange) Fields() (map[string]*Value, *Interrupt) {
 	return map[string]*Value{
+		"to_string": NewValueBuiltinFunction(func(executor Executor, cancelCtx *context.Context, span errors.Span, args ...Value) (*Value, *Interrupt) {
+			display, i := self.Display()
+			if i != nil {
+				return nil, i
+			}
+			return NewValueString(display), nil
+		}),
 		"start": self.Start,
 		"end":   self.End,
 		"rev": NewValueBuiltinFunction(func(executor Executor, cancelCtx *context.Context, span errors.Span, args ...Value) (*Value, *Interrupt) {
